@@ -442,7 +442,8 @@ def orders(h1: int, h2: int, pv: int) -> bool:
     """
     get_env().reset()
     fam = hlib.FAM[ORDER_FAMS[hlib.PART % len(ORDER_FAMS)]]
-    n1 = pick(POOL_NAMES, h1)
+    nsl = max(1, hlib.NPARTS // len(ORDER_FAMS))  # further split by the first warm-up value
+    n1 = pick(POOL_NAMES[(hlib.PART // len(ORDER_FAMS))::nsl], h1)
     n2 = pick(["-"] + second_pool(fam), h2)
     pvn = pick(POOL_NAMES, pv)
     if None in (n1, n2, pvn):
@@ -461,7 +462,7 @@ def plan(tier):
     t = 300 if tier == "quick" else 900
     return [
         {"fn": "values", "nparts": len(VALUE_KINDS), "timeout": t},
-        {"fn": "orders", "nparts": len(ORDER_FAMS), "timeout": t},
+        {"fn": "orders", "nparts": len(ORDER_FAMS) * (1 if tier == "quick" else 4), "timeout": t},
     ]
 
 
